@@ -763,6 +763,66 @@ func checkHostInfo(c *Check, p *Program) {
 			}
 		}
 	}
+	if hostFn.Signature.Results().Len() == 2 {
+		// the endpoint function is a helper: every connect request carries what a call of it returned - directly,
+		// through a local, or through the tunnel's endpoint field when nothing else is ever stored there and the
+		// store precedes the request on every path
+		isHostCall := func(v ssa.Value) bool {
+			ex, ok := v.(*ssa.Extract)
+			if !ok || ex.Index != 0 {
+				return false
+			}
+			call, ok := ex.Tuple.(*ssa.Call)
+			return ok && call.Common().StaticCallee() == hostFn
+		}
+		nReq := 0
+		seenReq := map[*ssa.Alloc]bool{}
+		for _, ss := range p.index().sockSends {
+			if !ss.payloadIs("ConnReq") {
+				continue
+			}
+			al, ok := ss.PayVal.(*ssa.Alloc)
+			if !ok || seenReq[al] {
+				continue
+			}
+			seenReq[al] = true
+			rn := FuncName(ss.Fn)
+			for f, sts := range fieldStores(al) {
+				if !isNamed(f.Type(), knxnetPath, "HostInfo") {
+					continue
+				}
+				for _, st := range sts {
+					nReq++
+					okAll, why := true, ""
+					for _, v := range loadValues(st.Val) {
+						if isHostCall(v) {
+							continue
+						}
+						if isLoadOf(v, a.control) {
+							dominated := false
+							for _, cs := range p.index().stores[a.control] {
+								for _, sv := range loadValues(cs.Val) {
+									if !isHostCall(sv) {
+										okAll, why = false, "the tunnel's endpoint field is also assigned something other than the endpoint function's result at "+p.InstrPos(cs)
+									}
+								}
+								if cs.Parent() == ss.Fn && instrDominates(cs, st) {
+									dominated = true
+								}
+							}
+							if !dominated && okAll {
+								okAll, why = false, "no assignment of the endpoint function's result to the tunnel's endpoint field precedes the request on every path"
+							}
+							continue
+						}
+						okAll, why = false, "the value is neither the endpoint function's result nor the tunnel's endpoint field"
+					}
+					c.Decide(okAll, "C16.T5", rn+" request."+f.Name()+" carries the endpoint", p.InstrPos(st), "the result of "+hn+" computed for this request", "the connect request's "+f.Name()+" is not the endpoint computed for this request: "+why)
+				}
+			}
+		}
+		c.Floor("C16.T5", "endpoint fields of connect requests", nReq, 2)
+	}
 	for _, r := range returnsOf(hostFn) {
 		if len(r.Results) != 2 || !p.returnMayBeNil(r, 1) {
 			continue
